@@ -731,6 +731,10 @@ class Eval:
             v = self.call_val(env, bi) if t is not None else self.rvalue(env, body.blocks[bi]["stmts"][si]["rv"], (bi, si))
             vs = v[1] if v[0] == "phi" else (v,)
             for a in vs:
+                if a[0] == "call" and len(a) == 5:
+                    # an Option-valued call returned as is (`xs.iter().position(p)` in tail position): present iff that
+                    # call's result is — and only on the paths that reach this return
+                    a = ("opt", ("payload", a, "ok", "0"), frozenset([("is_ok", a)]))
                 if a[0] == "opt":
                     try:
                         extra = set(Eval.presence_hook(self, env, bi))
